@@ -25,9 +25,13 @@ check('C20', title='Sequence gaps are recovered with a conformant counterparty',
       design_ref='DESIGN.md §3 C20, Appendix B',
       text='The real Session (acceptor with file store, initiator with memory store; library defaults and ignore_logon_sequence_check through a real SessionConfig) runs against a small counterparty model '
            'written from the FIX session rules: it logs what it sends, loses what is in flight at a drop, reconnects with a Logon carrying its current number, and answers every ResendRequest with '
-           'PossDup replays and gap fills. Every history up to the depth bound is followed by a deterministic completion phase (drain, one heartbeat, drain). Checked: the session never shuts down '
+           'PossDup replays and gap fills; in part crossing it answers only when it reads (peer-reads) and may itself request a resend of everything fix8 sent, so that requests cross and a range is replayed twice. Every history up to the depth bound is followed by a deterministic completion phase (drain, one heartbeat, drain). Checked: the session never shuts down '
            '(with a conformant peer every shutdown is a sequence reason), every application message of the peer was delivered at least once, the recovery terminates, and at quiescence the expected inbound number equals the peer\'s next number.',
       level_note='Bounded by history depth; message-granular link; one counterparty.',
-      rule='history over {peer-app, deliver, peer-hb, fix8-send, drop+reconnect}; distinct = new canonical state (session fields, peer log, in-flight queue, delivered set)',
-      assumptions=_ASSUME + ['the counterparty model is trusted as the statement of "follows the FIX session protocol"'],
-      parts=[dict(name='bfs', harness='session_gap', variant='san', quick=dict(args=['depth=6'], deadline=100), thorough=dict(args=['depth=9'], deadline=800))])
+      rule='history over {peer-app, deliver, peer-hb, fix8-send, drop+reconnect} and, in part crossing, {peer-resendreq, peer-reads}; distinct = new canonical state (session fields, peer log, in-flight queue, unread fix8 output, delivered set)',
+      assumptions=_ASSUME + ['the counterparty model is trusted as the statement of "follows the FIX session protocol"', 'a ResendRequest for messages the counterparty may already hold counts as conformant (FIX allows a request at any time)'],
+      budget={'quick': 240, 'thorough': 1800},
+      parts=[dict(name='bfs', harness='session_gap', variant='san', quick=dict(args=['depth=6'], deadline=100), thorough=dict(args=['depth=9'], deadline=800)),
+             dict(name='crossing', harness='session_gap', variant='san',
+                  quick=dict(args=['depth=6', 'cfgs=acc-file-lazy,ini-mem-lazy,acc-file-ignlogon-lazy,ini-mem-ignlogon-lazy'], deadline=120),
+                  thorough=dict(args=['depth=8', 'cfgs=acc-file-lazy,ini-mem-lazy,acc-file-ignlogon-lazy,ini-mem-ignlogon-lazy'], deadline=900))])
